@@ -6,6 +6,7 @@ import (
 	stdecdsa "crypto/ecdsa"
 	stded "crypto/ed25519"
 	"crypto/elliptic"
+	"crypto/sha512"
 	"encoding/binary"
 	"errors"
 	"fmt"
@@ -487,10 +488,12 @@ func runC13(c *Ctx) {
 		maxPos := cv.Params().BitSize/8 + 8 + 2
 		step := c.Pick(3, 1)
 		for pos := 0; pos <= maxPos; pos += step {
-			for _, chunk := range []int{0, 1, 7} {
-				out := c.Run("c13.entropy", cn, fmt.Sprint(pos), fmt.Sprint(chunk))
-				c.Count("entropy")
-				c.Direct(!strings.Contains(out, "err+"), "an error was returned together with a key or signature", map[string]any{"curve": cn, "pos": pos, "chunk": chunk, "impl": out})
+			for ci, chunk := range []int{0, 1, 7} {
+				// what the reader fails with (a custom error, io.EOF, io.ErrUnexpectedEOF) and whether the failing read also delivers data
+				mode := []int{0, 1, 2, 10, 11, 12}[(pos/step+ci)%6]
+				out := c.Run("c13.entropy", cn, fmt.Sprint(pos), fmt.Sprint(chunk), fmt.Sprint(mode))
+				c.Count(fmt.Sprintf("entropy:mode%d", mode))
+				c.Direct(!strings.Contains(out, "err+"), "an error was returned together with a key or signature", map[string]any{"curve": cn, "pos": pos, "chunk": chunk, "mode": mode, "impl": out})
 				if pos < 32 {
 					c.Direct(strings.HasPrefix(out, "sign=err"), "Sign succeeded although the entropy source failed before 32 bytes", map[string]any{"curve": cn, "pos": pos, "chunk": chunk, "impl": out})
 				}
@@ -671,7 +674,25 @@ func runC14(c *Ctx) {
 		for _, X := range bad {
 			msg := r.Bytes(20)
 			sig := stded.Sign(sk, msg)
+			// a signature made with A's secret scalar over the hash that names X as the key: valid if a verifier
+			// decodes A where it should have decoded (and refused) X
+			h := sha512.Sum512(seed)
+			h[0] &= 248
+			h[31] &= 127
+			h[31] |= 64
+			aS := leInt(h[:32])
+			rS := new(big.Int).Mod(leInt(r.Bytes(32)), edL)
+			B := edDecode(unhx("5866666666666666666666666666666666666666666666666666666666666666"))
+			Renc := edEncode(edMul(rS, *B))
+			kh := sha512.Sum512(append(append(append([]byte{}, Renc...), X...), msg...))
+			kS := new(big.Int).Mod(leInt(kh[:]), edL)
+			Ssc := new(big.Int).Mod(new(big.Int).Add(rS, new(big.Int).Mul(kS, aS)), edL)
+			crafted := append(append([]byte{}, Renc...), le(Ssc)...)
 			verify("cache:valid-key", pkA, msg, sig)
+			verify("cache:crafted-for-undecodable-key-first", X, msg, crafted)
+			verify("cache:valid-key", pkA, msg, sig)
+			verify("cache:crafted-for-undecodable-key-again", X, msg, crafted)
+			verify("cache:crafted-for-undecodable-key-third", X, msg, crafted)
 			verify("cache:undecodable-key-first", X, msg, sig)
 			verify("cache:undecodable-key-again", X, msg, sig)
 			verify("cache:undecodable-key-third", X, msg, sig)
